@@ -92,6 +92,7 @@ type dchange struct {
 type world struct {
 	pg     bool
 	tables map[string]*schema.Table
+	full   map[string]bool // built from its own descriptor (not a stub made for a reference)
 }
 
 func (w *world) colType(c dcol) *schema.ColumnType {
@@ -188,11 +189,12 @@ func (w *world) pkey(t *schema.Table, cols []string) *schema.Index {
 
 // table builds (once per name) the real table of a descriptor.
 func (w *world) table(d dtab) *schema.Table {
-	if t, ok := w.tables[d.name]; ok && len(t.Columns) >= len(d.cols) && len(d.cols) > 0 {
+	if t, ok := w.tables[d.name]; ok && (w.full[d.name] || len(d.cols) == 0) {
 		return t
 	}
 	t := &schema.Table{Name: d.name, Schema: mkSchema(d.schema)}
 	w.tables[d.name] = t
+	w.full[d.name] = len(d.cols) > 0
 	for _, c := range d.cols {
 		t.Columns = append(t.Columns, w.column(c))
 	}
@@ -480,8 +482,8 @@ type stmtObs struct {
 	chains []chain
 }
 
-func runPlanCase(w *out.W, id string, cfg planCfg, cs []dchange, expectReject bool, desc string) {
-	wd := &world{pg: cfg.pg, tables: map[string]*schema.Table{}}
+func runPlanCase(w *out.W, id string, cfg planCfg, cs []dchange, expectReject bool, desc string, skel bool) {
+	wd := &world{pg: cfg.pg, tables: map[string]*schema.Table{}, full: map[string]bool{}}
 	var real []schema.Change
 	cfg.ownOf = map[string]*string{}
 	noteTab := func(t dtab) {
@@ -531,6 +533,12 @@ func runPlanCase(w *out.W, id string, cfg planCfg, cs []dchange, expectReject bo
 			}
 		}
 	}
+	for _, c := range cs { // every described table first, so that references find the real one
+		switch c.k {
+		case "AT", "DT", "MT", "RT":
+			wd.table(c.t)
+		}
+	}
 	for _, c := range cs {
 		real = append(real, wd.change(c))
 	}
@@ -566,16 +574,34 @@ func runPlanCase(w *out.W, id string, cfg planCfg, cs []dchange, expectReject bo
 		}
 	}
 	head := fmt.Sprintf("%s q=%s mode=%d %s", dial, opt(cfg.q), cfg.mode, desc)
+	caseLine := ""
+	if skel {
+		ts := []string{b01(cfg.pg), opt(cfg.q), strconv.Itoa(len(cs))}
+		for _, c := range cs {
+			ts = append(ts, c.stok())
+		}
+		caseLine = strings.Join(ts, " ")
+	}
+	var obs []string
+	record := func(what string) {
+		if skel {
+			w.Case(id, caseLine, sortedLines(obs))
+		} else {
+			w.ImplOnly(id, what)
+		}
+	}
 	if pnc != nil {
 		w.Count("outcome:panic")
 		w.Violation(id, "plan-panic", fmt.Sprintf("%s: %v", head, pnc))
-		w.ImplOnly(id, head+" => panic")
+		obs = []string{"panic"}
+		record(head + " => panic")
 		return
 	}
 	if err != nil {
 		w.Count("outcome:error")
 		w.Count("error:" + errClass(err.Error()))
-		w.ImplOnly(id, head+" => error")
+		obs = []string{"error"}
+		record(head + " => error")
 		return
 	}
 	w.Count("outcome:planned")
@@ -612,6 +638,7 @@ func runPlanCase(w *out.W, id string, cfg planCfg, cs []dchange, expectReject bo
 				where = "reverse"
 			}
 			chs, _ := chainsOf(st, qo, qc, strq)
+			obs = append(obs, join(map[bool]string{false: "c", true: "r"}[ri > 0], stmtHead(st), refChains(chs, cfg.pg)))
 			w.NonTrivial(dial + "|" + opt(cfg.q) + "|" + stmtShape(st, qo, qc))
 			if cfg.q == nil {
 				// no qualifier requested: references carry the object's own schema
@@ -633,7 +660,61 @@ func runPlanCase(w *out.W, id string, cfg planCfg, cs []dchange, expectReject bo
 			checkChains(w, id, head, where, st, chs, cfg, *cfg.q, false)
 		}
 	}
-	w.ImplOnly(id, fmt.Sprintf("%s => %d statements", head, n))
+	if skel && cfg.mode != migrate.PlanModeUnsortedDump {
+		// DetachCycles / SortChanges (M-SORT) may split statements (foreign keys of table
+		// cycles, drops of referenced tables).  The skeleton models the planners without
+		// that rewriting: when the sorted plan differs as a multiset of statements from the
+		// unsorted one, the unsorted plan is what is compared with the model (the oracle
+		// above has seen the sorted one).
+		if o2, ok := unsortedObs(cfg, cs); ok && strings.Join(sortedLines(obs), "\n") != strings.Join(sortedLines(o2), "\n") {
+			w.Count("skel:sort-rewritten")
+			obs = o2
+		}
+	}
+	record(fmt.Sprintf("%s => %d statements", head, n))
+}
+
+// unsortedObs plans the same change set with PlanModeUnsortedDump and returns its
+// statement observations.
+func unsortedObs(cfg planCfg, cs []dchange) (obs []string, ok bool) {
+	defer func() {
+		if recover() != nil {
+			ok = false
+		}
+	}()
+	wd := &world{pg: cfg.pg, tables: map[string]*schema.Table{}, full: map[string]bool{}}
+	for _, c := range cs {
+		switch c.k {
+		case "AT", "DT", "MT", "RT":
+			wd.table(c.t)
+		}
+	}
+	var real []schema.Change
+	for _, c := range cs {
+		real = append(real, wd.change(c))
+	}
+	opts := []migrate.PlanOption{func(o *migrate.PlanOptions) {
+		o.SchemaQualifier, o.Mode, o.Indent = cfg.q, migrate.PlanModeUnsortedDump, cfg.indent
+	}}
+	var plan *migrate.Plan
+	var err error
+	qo, qc, strq := byte('`'), byte('`'), "'\""
+	if cfg.pg {
+		qo, qc, strq = '"', '"', "'"
+		plan, err = postgres.DefaultPlan.PlanChanges(context.Background(), "p", real, opts...)
+	} else {
+		plan, err = mysql.DefaultPlan.PlanChanges(context.Background(), "p", real, opts...)
+	}
+	if err != nil {
+		return nil, false
+	}
+	for _, c := range plan.Changes {
+		for ri, st := range append([]string{c.Cmd}, reverseStmts(c)...) {
+			chs, _ := chainsOf(st, qo, qc, strq)
+			obs = append(obs, join(map[bool]string{false: "c", true: "r"}[ri > 0], stmtHead(st), refChains(chs, cfg.pg)))
+		}
+	}
+	return obs, true
 }
 
 func oneLine(s string) string { return strings.Join(strings.Fields(s), " ") }
@@ -710,11 +791,13 @@ func checkChains(w *out.W, id, head, where, st string, chs []chain, cfg planCfg,
 // ---- generator
 
 type gen struct {
-	r      *rng.R
-	pg     bool
-	marker string
-	other  string
-	n      int
+	r       *rng.R
+	skel    bool // only the fragment Qual/RefSkeleton.v models
+	acyclic bool // foreign keys only point to tables drawn earlier
+	pg      bool
+	marker  string
+	other   string
+	n       int
 }
 
 func (g *gen) name(p string) string {
@@ -779,12 +862,17 @@ func (g *gen) fkTo(t, ref dtab) dfk {
 func (g *gen) subs(t dtab, others []dtab) []dsub {
 	var ss []dsub
 	kinds := []string{"AC", "DC", "MC", "MC", "RC", "AI", "DI", "MI", "RI", "AF", "DF", "MF", "AK", "DK", "MK", "APK", "DPK", "MPK", "ATC", "MTC"}
-	for k := 1 + g.r.Intn(3); k > 0; k-- {
+	if g.skel {
+		kinds = skelSubs
+	}
+	for k := 1 + g.r.Intn(3+2*map[bool]int{true: 1}[g.skel]); k > 0; k-- {
 		s := dsub{k: rng.Pick(g.r, kinds)}
 		c0 := t.cols[g.r.Intn(len(t.cols))]
 		ref := t
 		if len(others) > 0 {
 			ref = others[g.r.Intn(len(others))]
+		} else if g.acyclic && (s.k == "AF" || s.k == "DF" || s.k == "MF") {
+			s.k = "AK"
 		}
 		switch s.k {
 		case "AC":
@@ -880,15 +968,24 @@ func (g *gen) changeSet(sch *string, cross string) ([]dchange, string) {
 	for k := 1 + g.r.Intn(3); k > 0; k-- {
 		tabs = append(tabs, g.tab(sch, "t_"))
 	}
-	// foreign keys between the tables
+	// foreign keys between the tables.  acyclic: only to tables drawn earlier (no
+	// DetachCycles statements, which are M-SORT's, in the skeleton stage's sorted modes).
 	for i := range tabs {
 		if g.r.Chance(1, 2) {
-			tabs[i].fks = append(tabs[i].fks, g.fkTo(tabs[i], tabs[g.r.Intn(len(tabs))]))
+			j := g.r.Intn(len(tabs))
+			if g.acyclic {
+				if i == 0 {
+					continue
+				}
+				j = g.r.Intn(i)
+			}
+			tabs[i].fks = append(tabs[i].fks, g.fkTo(tabs[i], tabs[j]))
 		}
 	}
 	desc := []string{}
 	for k := 1 + g.r.Intn(4); k > 0; k-- {
-		t := tabs[g.r.Intn(len(tabs))]
+		ti := g.r.Intn(len(tabs))
+		t := tabs[ti]
 		kinds := []string{"AT", "AT", "DT", "RT", "MT", "MT", "MT", "MT"}
 		if g.pg {
 			kinds = append(kinds, "AO", "DO", "MO", "RO")
@@ -898,7 +995,11 @@ func (g *gen) changeSet(sch *string, cross string) ([]dchange, string) {
 		case "RT":
 			c.t2 = dtab{schema: t.schema, name: g.name("t_"), cols: t.cols}
 		case "MT":
-			c.subs = g.subs(t, tabs)
+			if g.acyclic {
+				c.subs = g.subs(t, tabs[:ti])
+			} else {
+				c.subs = g.subs(t, tabs)
+			}
 		case "AO", "DO", "MO", "RO":
 			c.ename, c.ename2, c.eschema = g.name("e_"), g.name("e_"), sch
 			c.vals, c.vals2 = []string{"a", "b"}, []string{"a", "b", "c"}
@@ -940,7 +1041,7 @@ func (g *gen) changeSet(sch *string, cross string) ([]dchange, string) {
 	return cs, strings.Join(desc, ",")
 }
 
-func runPlan(w *out.W, tier string) {
+func runPlan(w *out.W, tier string, skel bool) {
 	w.Rule = "distinct (dialect, qualifier, statement form) triples seen in planned Cmd / reverse statements (identifiers and numbers blanked)"
 	r := rng.FromEnv(0x9A17)
 	cnt := 6000
@@ -949,10 +1050,13 @@ func runPlan(w *out.W, tier string) {
 	}
 	modes := []migrate.PlanMode{migrate.PlanModeUnset, migrate.PlanModeInPlace, migrate.PlanModeDeferred, migrate.PlanModeDump, migrate.PlanModeUnsortedDump}
 	for i := 0; i < cnt; i++ {
-		g := &gen{r: r, pg: i%2 == 1}
+		g := &gen{r: r, pg: i%2 == 1, skel: skel}
 		g.marker = fmt.Sprintf("mkr%dx", 100+r.Intn(900))
 		g.other = fmt.Sprintf("oth%dx", 100+r.Intn(900))
 		cfg := planCfg{pg: g.pg, marker: g.marker, other: g.other, mode: modes[r.Intn(len(modes))]}
+		if skel && r.Bool() {
+			cfg.mode = migrate.PlanModeUnsortedDump
+		}
 		switch i % 3 {
 		case 1:
 			cfg.q = sp("")
@@ -963,7 +1067,7 @@ func runPlan(w *out.W, tier string) {
 			cfg.indent = "  "
 		}
 		cross := ""
-		if r.Chance(1, 6) {
+		if !skel && r.Chance(1, 6) {
 			cross = rng.Pick(r, []string{"table", "table", "enum", "object", "rename", "addschema", "dropschema", "modifyschema"})
 			if !g.pg && (cross == "enum" || cross == "object") {
 				cross = "table"
@@ -973,6 +1077,7 @@ func runPlan(w *out.W, tier string) {
 		if cross == "" && r.Chance(1, 12) {
 			sch = nil // tables, enums without a *schema.Schema
 		}
+		g.acyclic = skel && cfg.mode != migrate.PlanModeUnsortedDump
 		cs, desc := g.changeSet(sch, cross)
 		if sch == nil {
 			desc += ",noschema"
@@ -981,7 +1086,7 @@ func runPlan(w *out.W, tier string) {
 		if cross == "modifyschema" && cfg.mode.Is(migrate.PlanModeInPlace) && (cfg.q == nil || *cfg.q == "" || *cfg.q == g.marker) {
 			expectReject = false
 		}
-		runPlanCase(w, fmt.Sprintf("p%d", i), cfg, cs, expectReject, desc)
+		runPlanCase(w, fmt.Sprintf("p%d", i), cfg, cs, expectReject, desc, skel)
 	}
 	_ = sort.Strings
 }
